@@ -98,7 +98,7 @@ pub fn seeds(tier: &str) -> Vec<(Seed, PlanOpts)> {
         let opts = if tier == "quick" { PlanOpts::heads(24) } else { PlanOpts::full() };
         out.push((Seed { name: format!("synthetic/{}", name), bytes: bytes.clone(), wrap: Wrap::Raw }, opts));
         // bound 2: coupled pairs
-        let none = PlanOpts { head_bytes: 0, byte_faults: false, u16_faults: false, u32_faults: false, truncations: false, structure: false, pairs: 0 };
+        let none = PlanOpts { head_bytes: 0, byte_faults: false, u16_faults: false, u32_faults: false, truncations: false, structure: false, pairs: 0, layout_only: false };
         if tier == "quick" {
             if k < 2 {
                 out.push((Seed { name: format!("synthetic/{}#pairs", name), bytes, wrap: Wrap::Raw }, PlanOpts { pairs: 1, ..none }));
@@ -114,6 +114,10 @@ pub fn seeds(tier: &str) -> Vec<(Seed, PlanOpts)> {
 
 /// `vcheck c01-worker <tier> <seed index> <start> <end>`
 pub fn worker(args: &[String]) {
+    worker_with(args, seeds, battery)
+}
+
+pub fn worker_with(args: &[String], seeds: fn(&str) -> Vec<(Seed, PlanOpts)>, battery: fn(&[u8]) -> crate::battery::Report) {
     let tier = &args[0];
     let si: usize = args[1].parse().unwrap();
     let start: usize = args[2].parse().unwrap();
@@ -176,6 +180,7 @@ fn run_worker(worker_cmd: &str, tier: &str, si: usize, start: usize, end: usize,
         .arg(start.to_string())
         .arg(end.to_string())
         .env("VERIF_WATCHDOG_MS", budget_ms.to_string())
+        .env("VERIF_TIER", tier)
         .env("RUST_BACKTRACE", "0")
         .stdin(Stdio::null())
         .stdout(Stdio::piped())
@@ -395,10 +400,14 @@ pub fn run(ctx: &Ctx) {
 }
 
 pub fn replay(w: &Value) -> Result<(), String> {
+    replay_with(w, "c01-worker")
+}
+
+pub fn replay_with(w: &Value, cmd: &str) -> Result<(), String> {
     let tier = w["tier"].as_str().unwrap_or("quick");
     let si = w["seed_index"].as_u64().ok_or("no seed_index")? as usize;
     let case = w["case"].as_u64().ok_or("no case")? as usize;
-    let (done, died, note) = run_worker("c01-worker", tier, si, case, case + 1, WATCHDOG_MS * 2);
+    let (done, died, note) = run_worker(cmd, tier, si, case, case + 1, WATCHDOG_MS * 2);
     if let Some((_, reason, entry)) = died {
         return Err(format!("worker died: {} in {}", reason, entry));
     }
